@@ -247,6 +247,55 @@ pub fn gen_argv_broad(t: &mut Tape<'_>, spec: &CmdSpec) -> Argv {
     out
 }
 
+/// A well-formed line (`gen_argv_subset`, which walks down the tree and supplies required
+/// arguments) damaged by a few edits: insert a token made from the spec's own spellings or a
+/// hostile one, drop, duplicate, swap, truncate. Reaches deep parser states that purely random
+/// lines rarely get to.
+pub fn gen_argv_hybrid(t: &mut Tape<'_>, spec: &CmdSpec) -> Argv {
+    let mut out = gen_argv_subset(t, spec);
+    let lo = if spec.settings.no_binary_name { 0 } else { 1 };
+    let edits = t.range(0, 4);
+    for _ in 0..edits {
+        let len = out.len();
+        match t.choose(5) {
+            0 | 1 => {
+                // a token written for a random level of the tree
+                let mut level: &CmdSpec = spec;
+                while !level.subs.is_empty() && t.chance(1, 2) {
+                    level = &level.subs[t.choose(level.subs.len())];
+                }
+                let mut toks: Argv = Vec::new();
+                token(t, &mut level, &mut toks);
+                let at = t.range(lo.min(len), len);
+                for (i, tok) in toks.into_iter().enumerate() {
+                    out.insert((at + i).min(out.len()), tok);
+                }
+            }
+            2 if len > lo => {
+                let i = t.range(lo, len - 1);
+                out.remove(i);
+            }
+            3 if len > lo => {
+                let i = t.range(lo, len - 1);
+                let x = out[i].clone();
+                out.insert(i, x);
+            }
+            4 if len > lo + 1 => {
+                let i = t.range(lo, len - 1);
+                let j = t.range(lo, len - 1);
+                out.swap(i, j);
+            }
+            _ => {
+                if len > lo {
+                    let keep = t.range(lo, len);
+                    out.truncate(keep);
+                }
+            }
+        }
+    }
+    out
+}
+
 /// A value for `arg`: often one that some predicate of the level mentions for it
 /// (required_if_eq*, requires_if, default_value_if), else any accepted value.
 fn relation_value(t: &mut Tape<'_>, level: &CmdSpec, arg: &ArgSpec) -> String {
